@@ -244,7 +244,21 @@ def aliased_shared(desc):
 
 @st.composite
 def netlist_cases(draw, max_nodes, n_cycles):
-    desc = c03.under_top(draw(netlists(max_nodes=max_nodes, n_regs=(0, 4), n_mems=(0, 1), hierarchy=3, max_w=64, div=True)))
+    desc = c03.under_top(draw(netlists(max_nodes=max_nodes, n_regs=(0, 5), n_mems=(0, 1), hierarchy=3, max_w=64, div=True, reg_values=True,
+                                       widths=[1, 2, 4, 4, 8, 8, 9, 16, 33, 64])))
+    # twin blocks that are emitted under closely related shared module names: the same register with the opposite
+    # / another reset value, so that a wrong sharing of module bodies shows at power-up or on reset
+    regs = [k for k, nd in enumerate(desc['nodes']) if nd['op'] == 'Reg']
+    if regs and draw(st.integers(0, 2)) == 0:
+        k = draw(st.sampled_from(regs))
+        nd = desc['nodes'][k]
+        rv = nd['p'].get('rv') or draw(st.sampled_from([1, 2, 3, 5]))
+        nd['p']['rv'] = rv
+        twin = {'op': 'Reg', 'args': list(nd['args']), 'w': nd['w'], 'g': nd['g'],
+                'p': dict(nd['p'], rv=draw(st.sampled_from([-rv, -rv, rv + 1, 0])))}
+        desc['nodes'].append(twin)
+        desc['order'].append(len(desc['nodes']) - 1)
+        desc['outputs'] = sorted(set(desc['outputs'] + ['n%d' % k, 'n%d' % (len(desc['nodes']) - 1)]))
     excluded = 0
     for nd in desc['nodes']:
         if nd['op'] == 'Add' and nd['args'][0] == nd['args'][1]:
